@@ -195,12 +195,26 @@ class DULServiceProvider(threading.Thread):
                     evt = self.event.popleft()
                 except IndexError:
                     continue
-                self.state_machine.action(evt)
+                try:
+                    self.state_machine.action(evt)
+                except socket.error:
+                    self._transport_failed()
         except Exception:
             self.to_service_user.put(pdu.AAbortPDU(source=0, reason_diag=0))
             raise
         finally:
             self._is_killed.set()
+
+    def _transport_failed(self):
+        # connection was lost while sending (or could not be opened at all)
+        if self.dul_socket:
+            self.dul_socket.close()
+            self.dul_socket = None
+        if self.state_machine.current_state == fsm.States.STA_1:
+            # nothing was established yet, just let the user know
+            self.to_service_user.put(pdu.AAbortPDU(source=0, reason_diag=0))
+        else:
+            self.event.append(fsm.Events.EVT_17)
 
     def _check_network(self):
         if not self.dul_socket:
